@@ -316,10 +316,10 @@ func (s *Sched) Grant(r *LockReq) {
 	}
 	s.Grants[r.Role+"|"+r.Site]++
 	s.mu.Unlock()
-	close(r.grant)
 	if s.OnGrant != nil {
-		s.OnGrant(r)
+		s.OnGrant(r) // before the grantee can run
 	}
+	close(r.grant)
 }
 
 // Held describes the locks currently held (for deadlock reports).
